@@ -177,4 +177,8 @@ class DiagonalNormal(Distribution):
         raise NotImplementedError()
 
     def _mean(self, context):
-        return self.mean
+        mean = self.mean_.reshape(self._shape)
+        if context is None:
+            return mean
+        # The value of the context is ignored, only its size is taken into account.
+        return mean.expand(context.shape[0], *self._shape)
